@@ -407,10 +407,10 @@ func curvedStrokeCase(o *out.W, r *rng.R, i int) {
 			p.CubeTo(x+w/3, y+h, x+2*w/3, y-h, x+w, y+g(-2, 2))
 		case 3: // inflection close to the start: a slight bend to one side, then a turn to the other
 			fam += "-inflstart"
-			p.CubeTo(x+w/5, y+float64(r.Range(1, 4))/8*sign(h), x+4*w/5, y, x+w, y-h)
+			p.CubeTo(x+w/5, y+float64(r.Range(1, 3))/8*sign(h), x+4*w/5, y, x+w, y+h)
 		case 4: // inflection close to the end
 			fam += "-inflend"
-			p.CubeTo(x+w/5, y+h, x+4*w/5, y, x+w, y+float64(r.Range(1, 4))/8*sign(h))
+			p.CubeTo(x+w/5, y-h, x+4*w/5, y-h+float64(r.Range(1, 3))/8*sign(h), x+w, y-h)
 		case 5: // circular / elliptic arc
 			fam += "-arc"
 			rx := w/2 + g(0, 6)
